@@ -179,18 +179,20 @@ def docPaths : List (List Nat) :=
 /-- the output files of `pubkeys -o` after a run that got as far as writing -/
 def wrote (f : Nat × Bool) : M Unit := fun w => ⟨.ok (), [], { w with pubkeyFiles := some f }⟩
 
-/-- `do_get_pubkeys` up to the gathered keys (in the order btc, rsk, mst, tbtc, trsk, tmst) -/
-def doGetPubkeys (o : Options) (keyNorm : Bytes → Option Bytes := some) : M (List Bytes) := do
+/-- `do_get_pubkeys` up to the point where the keys are asked for: unlock (unless told not to), wait,
+    connect, and refuse a device that is not running the signer -/
+def pubkeysPrepare (o : Options) : M Unit := do
   if !o.noUnlock then
     M.tryCatchIf (doUnlock o) (fun _ => true) (fun _ => adminError)
   M.emit .sleep
   getHsm
   let mode ← getCurrentMode
   if mode == Mode_UNKNOWN.toNat || mode == Mode_BOOTLOADER.toNat then adminError
-  let keys ← docPaths.mapM getPublicKey
-  -- the keys are written to disk here, re-encoded uncompressed (`keyNorm`: python-ecdsa's reading of
-  -- the device's answer, an uninterpreted input); an answer that is no curve point is "Error writing output"
-  -- the text file is opened (truncated) only now, after every key has been gathered
+
+/-- writing the gathered keys: re-encoded uncompressed (`keyNorm`: python-ecdsa's reading of the
+    device's answer, an uninterpreted input); an answer that is no curve point is "Error writing
+    output"; the text file is opened (truncated) only now, after every key has been gathered -/
+def pubkeysWrite (o : Options) (keyNorm : Bytes → Option Bytes) (keys : List Bytes) : M (List Bytes) := do
   match keys.mapM keyNorm with
   | none =>
     if o.hasOutput then
@@ -200,6 +202,12 @@ def doGetPubkeys (o : Options) (keyNorm : Bytes → Option Bytes := some) : M (L
     if o.hasOutput then wrote (keys.length, true)
     disposeHsm
     pure ks
+
+/-- `do_get_pubkeys` up to the gathered keys (in the order btc, rsk, mst, tbtc, trsk, tmst) -/
+def doGetPubkeys (o : Options) (keyNorm : Bytes → Option Bytes := some) : M (List Bytes) := do
+  pubkeysPrepare o
+  let keys ← docPaths.mapM getPublicKey
+  pubkeysWrite o keyNorm keys
 
 end Admin
 end PowHsm
